@@ -1,5 +1,7 @@
 //! `vcheck <ID> [--tier quick|thorough] [--replay path]`
 
+use super::bb_c10::*;
+use super::bb_c12::*;
 use super::bb_graph::*;
 use super::bb_oneshot::*;
 use super::prop::*;
@@ -73,7 +75,9 @@ pub fn main() -> i32 {
         "C06" => c06(&ctx),
         "C07" => c07(&ctx),
         "C08" => c08(&ctx),
+        "C10" => c10(&ctx),
         "C11" => c11(&ctx),
+        "C12" => c12(&ctx),
         "C17" => c17(&ctx),
         "C20" => c20(&ctx),
         _ => {
@@ -188,6 +192,38 @@ fn bb_replays(ctx: &Ctx, report: &mut Report) -> u64 {
             }
         };
         let r = &v["replay"];
+        if r["engine"] == "BB-c12" {
+            match replay_c12(r) {
+                Ok(res) => {
+                    n += 1;
+                    if let Some(msg) = res.violation {
+                        println!("  replay {} still fails: {}", path.display(), msg);
+                        report.fail(Failure {
+                            message: msg,
+                            signature: res.signature.unwrap_or_default(),
+                            replay: res.replay,
+                        });
+                    }
+                }
+                Err(e) => report.infra_errors.push(e),
+            }
+        }
+        if r["engine"] == "BB-c10" {
+            match replay_c10(r) {
+                Ok(res) => {
+                    n += 1;
+                    if let Some(msg) = res.violation {
+                        println!("  replay {} still fails: {}", path.display(), msg);
+                        report.fail(Failure {
+                            message: msg,
+                            signature: res.signature.unwrap_or_default(),
+                            replay: res.replay,
+                        });
+                    }
+                }
+                Err(e) => report.infra_errors.push(e),
+            }
+        }
         if r["engine"] == "BB" {
             match replay_bb(r) {
                 Ok(Some(res)) => {
@@ -392,4 +428,52 @@ fn bb_part(
     for f in failures {
         report.fail(f);
     }
+}
+
+fn c10(ctx: &Ctx) -> i32 {
+    let mut report = Report::new(ctx, "exploration");
+    report.assume("exit latency bound of 5 s after the signal / the failing script's own timestamp: the remaining scripts sleep for 28 h, observed latencies are milliseconds");
+    report.assume("scripts are in exec form (the spawned shell is the process), as the statement speaks of the shells zinoma spawned");
+    bb_replays(ctx, &mut report);
+    if ctx.replay.is_none() {
+        let pr = PropRun {
+            ctx,
+            engine: "BB",
+            rule: "generated graph (n<=8, or fan-in / many-roots of 100..700 targets) x long-running / quick / failing scripts and services x mode {one-shot, watch} x exit cause {SIGINT, SIGTERM, failing target, normal completion} x instant (after k scripts/services are up, by rendezvous on marker files; or after a generated delay; double signal); exit latency <= 5 s and no process carrying the run's marker alive 200 ms after exit; non-trivial = >= 1 spawned process alive at the instant of the event, or a large graph in flight; distinct = cause x mode x k x #alive x double x large",
+            total_cases: ctx.tier.pick(48, 1500),
+            threads: 8.min(ctx.threads),
+            max_shrink_iters: 8,
+            stream: 110,
+        };
+        let (part, failures) = run_prop(&pr, c10_case, eval_c10);
+        report.add(part);
+        for f in failures {
+            report.fail(f);
+        }
+    }
+    report.finish()
+}
+
+fn c12(ctx: &Ctx) -> i32 {
+    let mut report = Report::new(ctx, "exploration");
+    report.assume("declared output paths are never themselves symlinks and no regular file is named .zinoma (the statement does not say what those denote)");
+    report.assume("a symlink entry to a regular file whose own name matches an extension filter may be removed or kept (the referent must survive either way)");
+    bb_replays(ctx, &mut report);
+    if ctx.replay.is_none() {
+        let pr = PropRun {
+            ctx,
+            engine: "BB",
+            rule: "1-3 projects x 1-5 build targets with generated output declarations (plain / extension-filtered paths: directory, file, missing, nested, overlapping the input) x planted trees (matching, non-matching, nested, .zinoma inside outputs, symlinks to precious files/dirs outside, dangling links, other targets' state) x {--clean, --clean T... (optionally after a real build)}; two-sided recursive snapshot diff against the harness-computed expected-deleted set; non-trivial = a survivor class adjacent to a deleted entry; distinct = invocation class x survivor-class set",
+            total_cases: ctx.tier.pick(800, 20_000),
+            threads: ctx.threads,
+            max_shrink_iters: 200,
+            stream: 112,
+        };
+        let (part, failures) = run_prop(&pr, c12_case, eval_c12);
+        report.add(part);
+        for f in failures {
+            report.fail(f);
+        }
+    }
+    report.finish()
 }
